@@ -1,6 +1,6 @@
 (* C14 -- instrumentation is deterministic, idempotent, reversible and order-independent (file-level part). *)
 From Coq Require Import String List Bool Arith Permutation.
-From DV Require Import Engine.Files.
+From DV Require Import Engine.Files Gen.SetIter.
 Import ListNotations.
 
 Theorem C14_idempotent : forall decodable transform f b src f',
@@ -23,3 +23,9 @@ Theorem C14_dir_order : forall decodable transform bs1 bs2 f, NoDup bs1 -> Permu
   forall k, instrument_seq decodable transform bs1 f k = instrument_seq decodable transform bs2 f k.
 Proof. exact dir_order_independent. Qed.
 Print Assumptions C14_dir_order.
+
+(* determinism of the transformation itself: the instrumenter iterates over no hash-ordered set
+   (static table regenerated from instrument/*.py and utils/hooks.py on every run) *)
+Theorem C14_no_hash_ordered_iteration : set_iter_sites = [].
+Proof. reflexivity. Qed.
+Print Assumptions C14_no_hash_ordered_iteration.
